@@ -1091,6 +1091,66 @@ fn probe_unsupported(id: usize, what: &str, call: impl FnOnce() -> String + std:
 }
 "##;
 
+
+/// C18, build WITHOUT icu_compiled_data: the formatters come from a derived IcuDataProvider
+const C18_PROVIDER_ITEMS: &str = r##"
+use icu_decimal::{options::{FixedDecimalFormatterOptions, GroupingStrategy}, FixedDecimalFormatter};
+use icu_list::{ListFormatter, ListLength};
+use icu_experimental::dimension::currency::{formatter::{CurrencyCode, CurrencyFormatter}, options::{CurrencyFormatterOptions, Width as CurrencyWidth}};
+use icu_provider::{DataError, DataProvider, DataRequest, DataResponse};
+use leptos_i18n::formatting::*;
+
+#[derive(leptos_i18n::custom_provider::IcuDataProvider)]
+pub struct HarnessProvider;
+macro_rules! delegate {
+    ($marker:path, $baked:path) => {
+        impl DataProvider<$marker> for HarnessProvider {
+            fn load(&self, req: DataRequest) -> Result<DataResponse<$marker>, DataError> { DataProvider::<$marker>::load(&$baked, req) }
+        }
+    };
+}
+delegate!(icu_plurals::provider::CardinalV1Marker, icu_plurals::provider::Baked);
+delegate!(icu_plurals::provider::OrdinalV1Marker, icu_plurals::provider::Baked);
+delegate!(icu_decimal::provider::DecimalSymbolsV1Marker, icu_decimal::provider::Baked);
+delegate!(icu_list::provider::AndListV1Marker, icu_list::provider::Baked);
+delegate!(icu_list::provider::OrListV1Marker, icu_list::provider::Baked);
+delegate!(icu_list::provider::UnitListV1Marker, icu_list::provider::Baked);
+delegate!(icu_experimental::dimension::provider::currency::CurrencyEssentialsV1Marker, icu_experimental::provider::Baked);
+
+fn dl(l: &str) -> icu_provider::DataLocale { (&l.parse::<icu_locid::Locale>().unwrap()).into() }
+fn fd(v: f64) -> fixed_decimal::FixedDecimal { fixed_decimal::FixedDecimal::try_from_f64(v, fixed_decimal::FloatPrecision::Floating).unwrap() }
+type D = Result<String, String>;
+fn es<E: std::fmt::Debug>(e: E) -> String { format!("{e:?}") }
+fn d_num(l: &str, gs: GroupingStrategy, v: f64) -> D {
+    Ok(FixedDecimalFormatter::try_new(&dl(l), FixedDecimalFormatterOptions::from(gs)).map_err(es)?.format_to_string(&fd(v)))
+}
+fn d_cur(l: &str, w: CurrencyWidth, code: &str, v: f64) -> D {
+    let f = CurrencyFormatter::try_new(&dl(l), CurrencyFormatterOptions::from(w)).map_err(es)?;
+    let mut s = String::new();
+    writeable::Writeable::write_to(&f.format_fixed_decimal(&fd(v), CurrencyCode(code.parse().unwrap())), &mut s).unwrap();
+    Ok(s)
+}
+fn d_list(l: &str, ty: &str, len: ListLength, v: &[&'static str]) -> D {
+    let f = match ty {
+        "And" => ListFormatter::try_new_and_with_length(&dl(l), len),
+        "Or" => ListFormatter::try_new_or_with_length(&dl(l), len),
+        _ => ListFormatter::try_new_unit_with_length(&dl(l), len),
+    }
+    .map_err(es)?;
+    Ok(f.format_to_string(v.iter()))
+}
+fn cmp(id: usize, observed: impl FnOnce() -> String, prefix: &str, expected: D) {
+    match expected {
+        Err(e) => p(id, format!("SKIP-ICU-UNSUPPORTED {e}")),
+        Ok(expected) => {
+            let expected = format!("{prefix}{expected}");
+            let observed = observed();
+            if observed == expected { p(id, format!("OK {expected}")) } else { p(id, format!("MISMATCH observed {observed:?} direct-ICU {expected:?}")) }
+        }
+    }
+}
+"##;
+
 fn c18(tier: Tier) -> i32 {
     use vmodel::fmtspec::*;
     let rep = Reporter::new("C18", "L3", tier);
@@ -1214,10 +1274,48 @@ fn c18(tier: Tier) -> i32 {
     }
     let n_cases = cases.len();
     execute(&rep, "C18", built);
+    // the same declarations of the number / currency / list families in a build WITHOUT icu_compiled_data:
+    // formatters come from a derived IcuDataProvider (second probe workspace)
+    {
+        let plocales = ["en", "fr", "ar"];
+        let pcases: Vec<&FmtCase> = cases.iter().filter(|c| matches!(c.family, "number" | "currency" | "list")).collect();
+        let mut pp = Project::new(Config::simple("en", &plocales));
+        for l in plocales {
+            let e: Vec<(String, Val)> = pcases.iter().enumerate().map(|(i, c)| (format!("f{i}"), s(vec![text(&format!("[{l}]")), var_fmt("v", &format!(" {}", c.text))]))).collect();
+            pp.set_file(None, l, e);
+        }
+        let mut c = Case::new(&format!("c18_{}_provider", tier.name()), pp);
+        c.probe.base_features = Some(vec!["ssr", "interpolate_display", "plurals", "format_nums", "format_list", "format_currency"]);
+        c.probe.extra_deps = "icu_plurals = { version = \"1.5\", features = [\"compiled_data\"] }\nicu_decimal = { version = \"1.5\", features = [\"compiled_data\"] }\nicu_list = { version = \"1.5\", features = [\"compiled_data\"] }\nicu_experimental = { version = \"0.1\", features = [\"compiled_data\"] }\nicu_provider = \"1.5\"\nfixed_decimal = { version = \"0.5\", features = [\"ryu\"] }\n".to_string();
+        c.probe.items.push_str(C18_PROVIDER_ITEMS);
+        c.probe.stmts.push("leptos_i18n::custom_provider::set_icu_data_provider(HarnessProvider);".to_string());
+        for (i, fc) in pcases.iter().enumerate() {
+            for l in plocales {
+                let lv = locale_variant(l);
+                let values: Vec<(String, String)> = match fc.family {
+                    "number" | "currency" => num_values.iter().map(|v| (format!("{v:?}f64"), format!("{v:?}"))).collect(),
+                    _ => lists.iter().map(|v| (v.to_string(), format!("&{v}"))).collect(),
+                };
+                for (vi, (sv, dv)) in values.iter().enumerate() {
+                    if tier == Tier::Quick && vi > 1 {
+                        continue;
+                    }
+                    let direct = fc.direct.replace("$L", &format!("{l:?}")).replace("$V", dv);
+                    let id = c.next_id;
+                    c.next_id += 1;
+                    c.probe.stmts.push(format!("cmp({id}, || td_string!({lv}, f{i}, v = {sv}).to_string(), \"[{l}]\", {direct});"));
+                    c.expected.insert(id, Expect { probe: c.probe.name.clone(), what: format!("custom provider: td_string {} @{l} value {dv}", fc.text), text: "^OK|^SKIP-ICU".into(), suffix: false });
+                }
+            }
+        }
+        select_workspace(true);
+        execute(&rep, "C18", vec![c]);
+        select_workspace(false);
+    }
     rep.nontriv(n_cases as u64 * locales.len() as u64);
     rep.sample(json!({"key": "[fr]{{ v, currency(width: narrow; currency_code: EUR) }}", "probe": "cmp(id, td_string!(Locale::fr_CA, f27, v = 1234567.891f64).to_string(), format!(\"[fr]{}\", d_cur(\"fr-CA\", CurrencyWidth::Narrow, \"EUR\", 1234567.891)))"}));
     let mut cov = serde_json::Map::new();
-    cov.insert("rule".into(), json!(format!("{n_cases} formatter declarations (every name x every documented argument value + omitted + invalid, unknown argument, swapped order) as keys of a project with locales en, fr, de, ja, ar and fr-CA (all keys null, inherits fr: fr's declaration rendered for fr-CA); for each key x locale x values (numbers 0, 1234567.891, -42; a fixed date, time, datetime; lists of 3, 1, 2, 0 items) td_string! (all), td! -> html and td_format_string! (subsets in the quick tier) are compared inside the probe with a direct ICU4X call for the locale being rendered; cache histories: every sequence of length <= {} over 6 number-formatter lookups that collide pairwise on locale or on options, each element compared with its direct-ICU value whatever ran before", tier.pick(4, 5))));
+    cov.insert("rule".into(), json!(format!("{n_cases} formatter declarations (every name x every documented argument value + omitted + invalid, unknown argument, swapped order) as keys of a project with locales en, fr, de, ja, ar and fr-CA (all keys null, inherits fr: fr's declaration rendered for fr-CA); for each key x locale x values (numbers 0, 1234567.891, -42; a fixed date, time, datetime; lists of 3, 1, 2, 0 items) td_string! (all), td! -> html and td_format_string! (subsets in the quick tier) are compared inside the probe with a direct ICU4X call for the locale being rendered; cache histories: every sequence of length <= {} over 6 number-formatter lookups that collide pairwise on locale or on options, each element compared with its direct-ICU value whatever ran before; the number / currency / list declarations again in a probe built WITHOUT icu_compiled_data whose formatters come from a derived IcuDataProvider (set_icu_data_provider)", tier.pick(4, 5))));
     cov.insert("exhaustive".into(), json!(tier == Tier::Thorough));
     rep.finish(cov, &["ICU4X formatting with compiled data is the reference (trusted base)", "thread interleavings of the cache are the loom engine's part of this check"])
 }
@@ -1426,6 +1524,9 @@ fn c05(tier: Tier) -> i32 {
         (format!("c05_{}", tier.name()), main_locales.clone(), all_masks.clone()),
         (format!("c05_{}_ptpt_first", tier.name()), vec!["pt-PT", "pt", "en"], vec![2, 31]),
         (format!("c05_{}_pt_first", tier.name()), vec!["pt", "pt-PT", "en"], vec![2, 31]),
+        // leptos_i18n built WITHOUT icu_compiled_data: the rules come from a user data provider
+        // (#[derive(IcuDataProvider)] + set_icu_data_provider), cardinal and ordinal
+        (format!("c05_{}_provider", tier.name()), vec!["en", "fr", "cy", "ru"], vec![2, 31]),
     ];
     let mut cases = vec![];
     let mut n = 0;
@@ -1451,6 +1552,25 @@ fn c05(tier: Tier) -> i32 {
     }
     let m = Model::new(&p);
     let mut c = Case::new(case_name, p.clone());
+    if case_name.ends_with("_provider") {
+        c.probe.base_features = Some(vec!["ssr", "interpolate_display", "plurals"]);
+        c.probe.extra_deps = "icu_plurals = { version = \"1.5\", features = [\"compiled_data\"] }\nicu_provider = \"1.5\"\n".to_string();
+        c.probe.items.push_str(
+            r##"
+use icu_plurals::provider::{CardinalV1Marker, OrdinalV1Marker};
+use icu_provider::{DataError, DataProvider, DataRequest, DataResponse};
+#[derive(leptos_i18n::custom_provider::IcuDataProvider)]
+pub struct HarnessProvider;
+impl DataProvider<CardinalV1Marker> for HarnessProvider {
+    fn load(&self, req: DataRequest) -> Result<DataResponse<CardinalV1Marker>, DataError> { DataProvider::<CardinalV1Marker>::load(&icu_plurals::provider::Baked, req) }
+}
+impl DataProvider<OrdinalV1Marker> for HarnessProvider {
+    fn load(&self, req: DataRequest) -> Result<DataResponse<OrdinalV1Marker>, DataError> { DataProvider::<OrdinalV1Marker>::load(&icu_plurals::provider::Baked, req) }
+}
+"##,
+        );
+        c.probe.stmts.push("leptos_i18n::custom_provider::set_icu_data_provider(HarnessProvider);".to_string());
+    }
     let counts: Vec<Num> = (0..=200).map(Num::I).collect();
     for l in &locales {
         for &mask in &masks {
@@ -1502,12 +1622,17 @@ fn c05(tier: Tier) -> i32 {
     nontriv += masks.len() * 2 * locales.len();
     cases.push(c);
     }
-    execute(&rep, "C05", cases);
+    // the provider probe is built in the workspace whose leptos_i18n has no compiled data
+    let (plain, provider): (Vec<Case>, Vec<Case>) = cases.into_iter().partition(|c| !c.probe.name.ends_with("_provider"));
+    execute(&rep, "C05", plain);
+    select_workspace(true);
+    execute(&rep, "C05", provider);
+    select_workspace(false);
     rep.nontriv(nontriv as u64);
     let (locales, masks) = (main_locales, all_masks);
     rep.sample(json!({"probe_stmt": "for n in 0u64..=200 { p(base + n as usize, td_string!(Locale::ru, p21c, count = n).to_string()); }", "records": n}));
     let mut cov = serde_json::Map::new();
-    cov.insert("rule".into(), json!(format!("locales {locales:?}; plural keys for form subsets {masks:?} (+ other), cardinal and ordinal; the generated `match category_for(count)` is executed for counts 0..=200 through td_string! (all), td! -> html (full-form keys, 0..=30), and td_plural!/td_plural_ordinal! (the category itself) and compared with ICU4X category_for called by the harness for the locale being rendered; two further probes render pt and pt-PT (same language, different CLDR rules at 0) in one process in either order")));
+    cov.insert("rule".into(), json!(format!("locales {locales:?}; plural keys for form subsets {masks:?} (+ other), cardinal and ordinal; the generated `match category_for(count)` is executed for counts 0..=200 through td_string! (all), td! -> html (full-form keys, 0..=30), and td_plural!/td_plural_ordinal! (the category itself) and compared with ICU4X category_for called by the harness for the locale being rendered; two further probes render pt and pt-PT (same language, different CLDR rules at 0) in one process in either order; a fourth is built WITHOUT icu_compiled_data and takes the rules from a derived IcuDataProvider installed with set_icu_data_provider")));
     cov.insert("exhaustive".into(), json!(tier == Tier::Thorough));
     rep.finish(cov, &["ICU4X compiled CLDR data is the trusted base"])
 }
